@@ -220,6 +220,14 @@ def _is_plain(v):
     return False
 
 
+@pattern(r'^<\[.*\] as Index<(std::ops::|core::ops::)?RangeFull>>::index$|^<Vec as Index<(std::ops::|core::ops::)?RangeFull>>::index$')
+def m_index_full(c):
+    """&v[..]: the whole sequence as a slice"""
+    from .exec import SeqView
+    s = as_seq(c.st, c.args[0])
+    return new_cell_ptr(SeqView(s, 0, s.length(c.st)))
+
+
 @pattern(r'^<\[.*\] as Index<(std::ops::|core::ops::)?RangeFrom>>::index$|^<Vec as Index<(std::ops::|core::ops::)?RangeFrom>>::index$')
 def m_index_rangefrom(c):
     from .exec import SeqView
